@@ -3,6 +3,7 @@ From Coq Require Import List NArith Bool Arith Lia.
 From SWH.lib Require Import Bytes Dec GitHeader Hex Sha1.
 From SWH Require Import Generated.
 From SWH.model Require Import Hashutil.
+From SWH.proofs Require Import HashutilExamples.
 Import ListNotations.
 Open Scope N_scope.
 
